@@ -403,7 +403,7 @@ func TestVerifC04(t *testing.T) {
 				}
 			case kind < 54: // MapRegion
 				frame := c04GenFrame(r) & ((1 << 39) - 1)
-				size := uint64(r.PickInt([]int{1, 4095, 4096, 4097, 8192, 12288, 3 * 4096, 20000}))
+				size := uint64(r.PickInt([]int{0, 1, 4095, 4096, 4097, 8192, 12288, 3 * 4096, 20000}))
 				flags := c04GenFlags(r)
 				cursor := earlyReserveLastUsed
 				s.opDesc = fmt.Sprintf("MapRegion(frame=%#x, size=%d, flags=%#x)", frame, size, flags)
@@ -427,7 +427,7 @@ func TestVerifC04(t *testing.T) {
 				if r.Bool() {
 					frame = uint64(r.Intn(1<<30)) + (1 << 20)
 				}
-				size := uint64(r.PickInt([]int{1, 4096, 4097, 8192, 16384}))
+				size := uint64(r.PickInt([]int{0, 1, 4096, 4097, 8192, 16384}))
 				flags := c04GenFlags(r)
 				pages := (size + 4095) / 4096
 				lo, hi := frame, frame+pages
